@@ -397,7 +397,7 @@ func units(tier string) []engine.Unit {
 func init() {
 	engine.Register(&engine.Check{
 		ID:        "C13",
-		Technique: "explicit-state search over the real Stack: every reachable content for capacities 1..4 (quick) x every operation, all constructors with 0..33 initial values followed by pushes past capacity and pops past empty; Go-slice reference model; copies of stacks with spare room after which both grow; a stack made from a full queue with a parked producer under every schedule",
+		Technique: "explicit-state search over the real Stack: every reachable content for capacities 1..4 (quick) x every operation, all constructors with 0..33 initial values followed by pushes past capacity and pops past empty; Go-slice reference model; copies of stacks with spare room after which both grow; a stack made from a full queue with a parked producer under every schedule; every transition is a one-thread program under the scheduler, every operation is applied once more after a rejected call",
 		Rule:      "state = dump of private fields; transition = (state, op) on a rebuilt real stack",
 		Assume:    []string{"two pushed values; capacities as listed"},
 		Budget: func(tier string) time.Duration {
